@@ -118,6 +118,9 @@ def _oracle_broad(case, obs):
 def oracle(case, obs):
     if case.get("broad"):
         return _oracle_broad(case, obs)
+    why = sc.clock_oracle(obs)
+    if why:
+        return why
     if case.get("again"):
         return _oracle_history(case, obs)
     if obs["raised"] != "none":
